@@ -25,7 +25,7 @@ STUB_TOPLEVEL = {
     'gidgethub', 'zulip', 'uvloop', 'pyfiglet', 'dill', 'jproperties', 'aiodns', 'avro', 'regex', 'Deprecated', 'protobuf',
     'plotnine', 'matplotlib', 'tqdm', 'docker', 'kubernetes', 'pymysql_', 'secrets_', 'async_timeout', 'python_json_logger', 'pythonjsonlogger',
     'numpy_', 'packaging_', 'toml', 'tomli', 'Crypto', 'oauthlib', 'cachetools', 'httplib2', 'uritemplate', 'certifi',
-    'aiofiles', 'setproctitle', 'collectors', 'pyinstrument', 'importlib_metadata_', 'wrapt', 'benchmark_', 'googlecloudprofiler',
+    'aiofiles', 'setproctitle', 'collectors', 'pyinstrument', 'importlib_metadata_', 'wrapt', 'benchmark_', 'dictdiffer', 'googlecloudprofiler',
 }
 
 
